@@ -259,6 +259,8 @@ def run_check(prop: str, profile_name: str, tier: str, seed: int, jobs: int, spe
         for v in r["violations"]:
             by_sig.setdefault(v["signature"], []).append(r)
     new_viol: list[tuple[str, str]] = []
+    n_min = 0
+    t_min0 = time.time()
     known_hit: dict[str, int] = {}
     lines: list[str] = []
     for sig in sorted(by_sig):
@@ -277,6 +279,14 @@ def run_check(prop: str, profile_name: str, tier: str, seed: int, jobs: int, spe
         first = rs[0]
         v = next(v for v in first["violations"] if v["signature"] == sig)
         case = first["case"]
+        n_min += 1
+        if n_min > spec.get("max_minimise", 8) or time.time() - t_min0 > spec.get("minimise_wall", 300):
+            # many distinct signatures (typically one defect seen through many clauses): report the rest un-minimised
+            path = write_replay(prop, case, v)
+            new_viol.append((sig, path))
+            lines.append(f"VIOLATION property={prop} replay={path}")
+            lines.append(f"  signature: {sig}  (runs: {len(rs)}, first seed {first['run_seed']}, not minimised: budget spent on earlier signatures)")
+            continue
         try:
             small = pool.submit(_minimise_in_worker, (case, prop, sig, spec.get("min_budget", 25.0))).result(timeout=180)
         except Exception as e:  # noqa: BLE001
